@@ -19,7 +19,7 @@ RULE = (
 ASSUMPTIONS = [
     "indices beyond the explored n (exhaustive n<=N_EXH, sampled n<=5000) and k>4 are not covered",
 ]
-REQUIRED = {"unrank_checked": {"quick": 100000, "thorough": 1000000}, "scorer_runs": {"quick": 20, "thorough": 100}, "scorer_runs_production_regime": {"quick": 10, "thorough": 60}}
+REQUIRED = {"unrank_checked": {"quick": 100000, "thorough": 1000000}, "scorer_runs": {"quick": 20, "thorough": 100}, "scorer_runs_production_regime": {"quick": 10, "thorough": 60}, "scorer_counting_runs": {"quick": 40, "thorough": 300}}
 
 N_EXH = {"quick": 40, "thorough": 64}
 BIG_N = [100, 317, 1000, 2000, 5000]
@@ -164,6 +164,21 @@ def run_shard(rec, tier, seed, shard, nshards):
                 rec.count("scorer_runs_subsampled")
             if run == 0 and shard == 0:
                 rec.sample({"kind": "scorer", "n_thetas": n_thetas, "budget": budget, "first_triples": [list(t) for t in triples[:4]]})
+            # counting run: identical posterior samples, unit variances, unit distances -> every triple contributes the
+            # same term, so the score reveals how many triples were really evaluated (not merely unranked)
+            Pn, En = int(rng.integers(1, 4)), int(rng.integers(1, 4))
+            same_pred = np.tile(rng.normal(size=(Pn, 1, En)), (1, n_thetas, 1))
+            ones = np.ones((Pn, n_thetas, En))
+            dd = np.ones((n_thetas, n_thetas)) - np.eye(n_thetas)
+            try:
+                sc = G.dbal_fast_gauss_scoring_vectorized(same_pred, ones, dd, np.random.default_rng(int(rng.integers(0, 2**31))), max_combos=budget)
+            except Exception as e:
+                rec.violation("C15/scorer/raises", "counting run raised %r" % (e,), {"n_thetas": n_thetas, "budget": budget})
+                continue
+            term = np.log(3.0) + En * (-0.5 * np.log(3.0))
+            used = np.exp(np.asarray(sc, dtype=float) - term)
+            rec.count("scorer_counting_runs")
+            rec.check(bool(np.all(np.abs(used - want) <= 1e-6 * want)), "C15/scorer/triples-not-all-used", lambda: "the kernel evaluated %r triples, %d were selected (n_thetas=%d, budget=%d, C(n,3)=%d)" % (np.round(used, 3).tolist(), want, n_thetas, budget, total), {"n_thetas": n_thetas, "budget": budget})
 
 
 def coverage_extra(tier, counters):
